@@ -69,11 +69,14 @@ def _copy_widget_options(options):
   """Copies widgetOptions for a summary group-by column (omitting conditional formatting rules)"""
   if not options:
     return options
+  original = options
   try:
     options = json.loads(options)
   except ValueError:
     # widgetOptions are not always a valid json value (especially in tests)
     return options
+  if not isinstance(options, dict):
+    return original
   return json.dumps({k: v for k, v in options.items() if k != "rulesOptions"})
 
 
